@@ -629,7 +629,8 @@ def _structured_custom_scalar(node, live_type):
         if isinstance(t, ScalarType) and t not in SPECIFIED_SCALAR_TYPES:
             # what the literal DENOTES for a custom scalar: its untyped reading (the default `parse_literal` hands the
             # scalar the token TEXT, so `2` comes back as "2"; lists / objects are refused by value_from_ast)
-            return untyped_value_from_ast(node)
+            # ... the untyped reading is the WIRE value; the scalar's own `parse` turns it into the Python value
+            return t.parse(untyped_value_from_ast(node))
         return value_from_ast(node, t)
     except Exception:  # noqa
         return _NO
